@@ -56,6 +56,10 @@ THEOREMS = [
     'C04_lattice_filltr_trcl', 'C04_frame_transform_torus_total',
     'C04_adjust_matrix_near_orthonormal', 'C04_adjust_matrix_idempotent',
     'C04_trcl_cell', 'C04_transformation_law', 'C04_convert_law',
+    'C04_interface_law', 'C04_interface_law_inv', 'C04_convert_law_all',
+    'C04_entry_law',
+    'C04_trcl_cell_t4', 'C04_normalize_matrix_trailing_J',
+    'C04_error_branches',
 ]
 TRUSTED = [
     'hand-written model coq/C04/Model.v (modelled, tied by execution only)',
@@ -393,7 +397,7 @@ def gen_surface(rng, macro=True):
              'cy', 'cz', 'c/x', 'c/y', 'c/z', 'kx', 'ky', 'kz', 'k/x', 'k/y',
              'k/z', 'k/x', 'k/z', 'tx', 'ty', 'tz', 'sq', 'gq', 'gq', 'x', 'z']
     if macro:
-        kinds += ['rpp', 'box', 'rcc', 'trc', 'rec', 'hex']
+        kinds += ['rpp', 'box', 'rcc', 'trc', 'rec', 'hex', 'sph', 'wed', 'ell']
     mn = rng.choice(kinds)
     if mn in ('px', 'py', 'pz'):
         return mn, [c()]
@@ -455,6 +459,15 @@ def gen_surface(rng, macro=True):
         m = rng.choice(PERMS) if rng.random() < 0.6 else quat_rot(rng)
         return mn, [c(), c(), c()] + [float(v) for i in range(3)
                                       for v in m[i] * r()]
+    if mn == 'sph':
+        return mn, [c(), c(), c(), r()]
+    if mn == 'wed':
+        m = rng.choice(PERMS) if rng.random() < 0.6 else quat_rot(rng)
+        return mn, [c(), c(), c()] + [float(v) for i in range(3)
+                                      for v in m[i] * r()]
+    if mn == 'ell':
+        m = rng.choice(PERMS) if rng.random() < 0.6 else quat_rot(rng)
+        return mn, [c(), c(), c()] + [float(v) for v in m[0] * 2.5] + [-1.0]
     if mn in ('rcc', 'trc', 'rec', 'hex'):
         m = rng.choice(PERMS) if rng.random() < 0.6 else quat_rot(rng)
         base = [c(), c(), c()] + [float(v) for v in m[0] * r() * 2]
@@ -828,9 +841,59 @@ CORPUS = {
         '1 5 px 1\n\ntr5 0 0 0 -1 0 0\n',
 }
 
+CORPUS.update({
+    # a TRCL cell whose expression holds a complement node (left alone by
+    # pot_transform) next to moved surfaces
+    'trcl_with_complement':
+        'TRCL cell with #n\n1 0 -1 #3 trcl=(1 0 0 0 1 0 -1 0 0 0 0 1) imp:n=1\n'
+        '2 0 #1 #3 imp:n=1\n3 0 -4 imp:n=1\n\n1 so 5\n4 s 1 1 0 0.5\n\n',
+    # nested universes, the outer FILL carries a transformation: cell
+    # references go through pot_transform (cell_transform recursion)
+    'nested_fill_tr':
+        'nested fill\n1 0 -10 fill=1 (1 0.5 0 0 1 0 -1 0 0 0 0 1) imp:n=1\n'
+        '2 0 -11 fill=2 u=1 imp:n=1\n3 0 11 u=1 imp:n=1\n'
+        '4 0 -12 u=2 imp:n=1\n5 0 12 u=2 imp:n=1\n6 0 10 imp:n=0\n\n'
+        '10 so 10\n11 s 1 0 0 3\n12 s 2 0 0 1\n\n',
+})
+
+# decks that MUST be rejected (m = -1 on a TR card used by a surface)
+MUST_REJECT = {
+    'tr_card_m_minus_one':
+        ('m=-1\n1 0 -1 imp:n=1\n2 0 1 imp:n=0\n\n1 5 so 2\n\n'
+         'tr5 1 0 0 1 0 0 0 1 0 0 0 1 -1\n', 'TransformationError'),
+}
+
 WITNESSES = {}      # no open class
 
 WITNESS_DECKS = {
+    'trcl_with_complement': {
+        'cells': [{'id': 1, 'mat': 0, 'expr': ('*', ('s', -1), ('#c', 3)),
+                   'imp': {'n': 1},
+                   'trcl': {'O': (1, 0, 0),
+                            'B': [0, 1, 0, -1, 0, 0, 0, 0, 1]}},
+                  {'id': 2, 'mat': 0, 'expr': ('*', ('#c', 1), ('#c', 3)),
+                   'imp': {'n': 1}},
+                  {'id': 3, 'mat': 0, 'expr': ('s', -4), 'imp': {'n': 1}}],
+        'surfaces': [{'id': 1, 'mn': 'so', 'params': [5.0]},
+                     {'id': 4, 'mn': 's', 'params': [1.0, 1.0, 0.0, 0.5]}],
+        'transforms': {}},
+    'nested_fill_tr': {
+        'cells': [{'id': 1, 'mat': 0, 'expr': ('s', -10), 'imp': {'n': 1},
+                   'fill': {'u': 1, 'tr': {'O': (1, 0.5, 0),
+                                           'B': [0, 1, 0, -1, 0, 0, 0, 0, 1]}}},
+                  {'id': 2, 'mat': 0, 'expr': ('s', -11), 'imp': {'n': 1},
+                   'u': 1, 'fill': {'u': 2, 'tr': None}},
+                  {'id': 3, 'mat': 0, 'expr': ('s', 11), 'imp': {'n': 1},
+                   'u': 1},
+                  {'id': 4, 'mat': 0, 'expr': ('s', -12), 'imp': {'n': 1},
+                   'u': 2},
+                  {'id': 5, 'mat': 0, 'expr': ('s', 12), 'imp': {'n': 1},
+                   'u': 2},
+                  {'id': 6, 'mat': 0, 'expr': ('s', 10), 'imp': {'n': 0}}],
+        'surfaces': [{'id': 10, 'mn': 'so', 'params': [10.0]},
+                     {'id': 11, 'mn': 's', 'params': [1.0, 0.0, 0.0, 3.0]},
+                     {'id': 12, 'mn': 's', 'params': [2.0, 0.0, 0.0, 1.0]}],
+        'transforms': {}},
     'matrix3_row_minus_ex': {   # PX only sees the supplied vector
         'cells': [{'id': 1, 'mat': 0, 'expr': ('s', -1), 'imp': {'n': 1}},
                   {'id': 2, 'mat': 0, 'expr': ('s', 1), 'imp': {'n': 1}}],
@@ -915,6 +978,24 @@ def run(res, tier, seed, proofs_ok):
         'n TR, TRCL=n, TRCL=(..), *TRCL, 1000c+s. non-trivial = anything but '
         'the identity/no transformation')
 
+    import c04_cov
+    cov = c04_cov.LineCov(c04_cov.anchored_functions())
+    with cov:
+        run_body(res, rng, quick, seed)
+    total, missing = cov.missing(c04_cov.UNREACHABLE)
+    res.obligation(f'line coverage: every reachable line of the anchored '
+                   f'functions ({total} lines, {len(cov.codes)} code objects) '
+                   'is executed by the ties, the corpus and the sweep',
+                   not missing, '; '.join(f'{n}:{ln} {t}'
+                                          for n, ln, t in missing[:12]))
+    for name, lineno, text in missing[:5]:
+        res.violation('correspondence', f'line never executed by the tied '
+                      f'calls: {name}:{lineno} {text}',
+                      {'theorem_or_correspondence': 'line coverage',
+                       'line': [name, lineno, text]}, found_input=False)
+
+
+def run_body(res, rng, quick, seed):
     # ---- 0. witnesses of the open classes ---------------------------------
     for cls in sorted(WITNESSES):
         failing, what = witness_fails(cls, random.Random(seed + 1))
@@ -932,15 +1013,34 @@ def run(res, tier, seed, proofs_ok):
                           {'input': {'deck': CORPUS[name]}}, cls=None,
                           found_input=True)
 
+    for name, (text, exc) in sorted(MUST_REJECT.items()):
+        conv = impl.convert(text)
+        res.count(f'must-reject:{name}:{conv.exc}')
+        if conv.ok or conv.exc != exc:
+            res.violation('impl-violation', f'deck {name} must be rejected '
+                          f'with {exc}, got ok={conv.ok} {conv.exc}',
+                          {'input': {'deck': text}}, found_input=True)
+
+    tie_direct(res, rng, 60 if quick else 600)
     tie_trcards(res, rng, 500 if quick else 5000, 150 if quick else 1500)
     tie_matrix(res, rng, 300 if quick else 3000)
     pool = tie_small(res, rng, quick)
-    tie_surfaces(res, rng, 2600 if quick else 26000, pool)
+    tie_surfaces(res, rng, 1800 if quick else 26000, pool)
+    tie_entries(res, rng, 300 if quick else 3000, pool)
     tie_trcl(res, rng, 400 if quick else 4000)
     tie_implicit(res, rng, 200 if quick else 2000)
     tie_lattice(res, rng, 40 if quick else 400)
     with PotRecorder() as recorder:
         sweep_decks(res, rng, 70 if quick else 900)
+        # an empty transformation in the list: pot_transform returns the tree
+        from MIP.geom.semantics import Surface, GeomExpression
+        from t4_geom_convert.Kernel.Volume.CellConversion import \
+            CellConversion
+        conv0 = CellConversion(10, 10, {}, {},
+                               {1: mcnp_parts('so', [2.0]),
+                                2: mcnp_parts('px', [1.0])}, {})
+        conv0.apply_trcl([[]], GeomExpression(('*', Surface(-1),
+                                               Surface(2))))
     tie_pot(res, recorder.records)
 
 
@@ -1487,6 +1587,140 @@ def tie_pot(res, records):
                lambda i: (f'apply_trcl {records[i][1]} by {records[i][0]} -> '
                           f'{records[i][4]}',
                           {'observed': str(records[i])[:1500]}))
+
+
+def tie_entries(res, rng, n, pool):
+    '''convert_mcnp_surface (SurfaceCollection.join) on whole dictionary
+    entries: elementary surfaces and every macrobody, moved or not.'''
+    from t4_geom_convert.Kernel.Transformation.Transformation \
+        import transformation
+    from t4_geom_convert.Kernel.Surface.ConversionSurfaceMCNPToT4 \
+        import convert_mcnp_surface
+    cases, meta = [], []
+    for _ in range(n):
+        mn, params = gen_surface(rng)
+        _tag, tr = gen_tr12(rng, pool)
+        if len(tr) not in (0, 12):
+            tr = []
+        parts = call(mcnp_parts, mn, params)
+        if parts[0] == 'err':
+            continue
+
+        def run():
+            moved = [(transformation(tr, surf), side)
+                     for surf, side in parts[1]]
+            coll = convert_mcnp_surface(1, moved)
+            out = []
+            for t4s, side in coll.surfs:
+                trf = None
+                if t4s.transform is not None:
+                    trf = ([float(v) for v in t4s.transform[0].flat],
+                           [float(v) for v in t4s.transform[1].flat])
+                out.append((t4s.type_surface.name,
+                            [float(v) for v in t4s.param_surface], trf,
+                            int(side)))
+            return moved, out
+        got = call(run)
+        if got[0] == 'err':
+            if not unexpected(res, got, f'{mn} {params} under {tr}',
+                              {'input': {'mn': mn, 'params': params,
+                                         'tr': tr}}):
+                res.count('entry-impl:' + got[1])
+            continue
+        moved, out = got[1]
+        entry = [(frame_form(surf), int(side)) for surf, side in moved]
+        if any(ms is None for ms, _ in entry):
+            continue
+        cases.append(cpair(clist(cpair(cmsurf(ms), cz(sd))
+                                 for ms, sd in entry),
+                           cres(('ok', out),
+                                lambda l: clist(ct4(x) for x in l))))
+        meta.append((mn, params, tr, out))
+        res.seen(('entry', mn, params, tr))
+        # independent oracle on the JOINED collection (sides multiplied)
+        bmat = np.array(tr[3:] if tr else [1, 0, 0, 0, 1, 0, 0, 0, 1], float)
+        if np.abs(bmat.reshape(3, 3) @ bmat.reshape(3, 3).T
+                  - np.eye(3)).max() < 1e-9:
+            truth = {'O': tr[:3] if tr else (0, 0, 0), 'B': list(bmat)}
+            tr_saved, tr = tr, []
+            base = call(run)
+            tr = tr_saved
+            wrong = first = None
+            if base[0] == 'ok':
+                wrong = 0
+                for pt in points_for(rng, 6):
+                    p_aux = mcnpref.to_aux(truth, pt)
+                    want = mcnp_sense(mn, params, p_aux)
+                    got_s = coll_sense([(out, 1)], pt)
+                    base_s = coll_sense([(base[1][1], 1)], p_aux)
+                    if None in (want, got_s, base_s) or base_s != want:
+                        continue
+                    if got_s != want:
+                        wrong += 1
+                        first = first or list(pt)
+            if wrong:
+                res.violation(
+                    'impl-violation', f'{mn} {params} moved by {tr}: the '
+                    f'joined collection has the wrong sense at {first}',
+                    {'input': {'mn': mn, 'params': params, 'tr': tr,
+                               'point': first}}, found_input=True)
+        res.count(f'entry:parts={len(entry)}:surfs={len(out)}')
+    bad, errs = common.run_case_files(
+        'c04_entry', HEADER,
+        'list (msurf float * Z) * res (list (t4surf float * Z))',
+        'check_entry', cases)
+    report_tie(res, 'convert_entry', len(cases), bad, errs,
+               lambda i: (f'{meta[i][0]} {meta[i][1]} moved by {meta[i][2]} '
+                          f'-> {str(meta[i][3])[:200]}',
+                          {'input': {'mn': meta[i][0], 'params': meta[i][1],
+                                     'tr': meta[i][2]},
+                           'observed': str(meta[i][3])}))
+
+
+def tie_direct(res, rng, n):
+    '''Direct calls of Transformation.normalize_transform (0, 3, 12, 13 and
+    odd lengths: the branches MIP's padding hides) and of the helper
+    Transformation.transform_vector (affine reading).'''
+    from t4_geom_convert.Kernel.Transformation import Transformation as TR
+    nt_cases, nt_meta, af_cases, af_meta = [], [], [], []
+    for k in range(n):
+        _, b = gen_rot(rng)
+        full = gen_origin(rng) + [float(v) for v in b.reshape(9)] + [1.0]
+        length = [0, 3, 12, 13, 2, 5, 9][k % 7]
+        lst = full[:length]
+        if length == 13 and rng.random() < 0.5:
+            lst[-1] = rng.choice([-1.0, 2.0])
+        out = call(lambda l=lst: [float(v) for v in
+                                  TR.normalize_transform(list(l))])
+        if not unexpected(res, out, f'normalize_transform({lst})',
+                          {'input': {'transf': lst}}):
+            nt_cases.append(cpair(clist(copt(v, cfloat) for v in lst),
+                                  cres(out, cfl)))
+            nt_meta.append((lst, out))
+        res.seen(('nt', lst))
+        tr = full[:12]
+        vec = [rng.uniform(-3, 3) for _ in range(3)]
+        got = [float(v) for v in TR.transform_vector(tr, vec)]
+        want = np.array(tr[3:]).reshape(3, 3) @ np.array(vec) + np.array(tr[:3])
+        if np.abs(np.array(got) - want).max() > 1e-9:
+            res.violation('impl-violation', 'transform_vector is not A v + b',
+                          {'input': {'tr': tr, 'vec': vec}}, found_input=True)
+        af_cases.append(cpair(cfl(tr), cv3(vec), cv3(got)))
+        af_meta.append((tr, vec, got))
+    bad, errs = common.run_case_files(
+        'c04_nt', HEADER, 'list (option float) * res (list float)',
+        'check_nt', nt_cases)
+    report_tie(res, 'normalize_transform(direct)', len(nt_cases), bad, errs,
+               lambda i: (f'normalize_transform({nt_meta[i][0]}) = '
+                          f'{nt_meta[i][1]}',
+                          {'input': {'transf': nt_meta[i][0]},
+                           'observed': str(nt_meta[i][1])}))
+    bad, errs = common.run_case_files(
+        'c04_affine', HEADER, 'list float * V3 float * V3 float',
+        'check_affine', af_cases)
+    report_tie(res, 'transform_vector(affine)', len(af_cases), bad, errs,
+               lambda i: (f'transform_vector{af_meta[i][:2]}',
+                          {'observed': str(af_meta[i])}))
 
 
 def gen_tokens(rng):
